@@ -43,6 +43,11 @@ def txnStr (t : Txn) : String :=
   toString t.tid ++ ":" ++ (if t.packed then "p" else "_") ++ ":" ++ hexOfBytes t.mdata ++ ":[" ++
     joinWith "," (t.recs.map recStr) ++ "]"
 
+def loadStr : Load → String
+  | .keyError => "K"
+  | .none => "N"
+  | .some d t e => "d" ++ hexOfBytes d ++ ".s" ++ toString t ++ ".e" ++ optNatStr e
+
 def sortNat (l : List Nat) : List Nat := l.mergeSort (fun a b => decide (a ≤ b))
 
 def listStr (l : List Nat) : String := joinWith "," ((sortNat l).map toString)
@@ -109,6 +114,12 @@ def pkStep (s : DState) (toks : List String) : DState × String :=
           | .none => "none"
           | .some d t e => "d=" ++ hexOfBytes d ++ " s=" ++ toString t ++ " e=" ++ optNatStr e)
     | _, _ => (s, "bad-op")
+  | ["loads", T, oids, bs] =>
+    match T.toNat?, natList oids, natList bs with
+    | some T, some oids, some bs =>
+      (s, joinWith ";" (oids.flatMap fun o => (bs.filter (fun b => decide (T < b))).map fun b =>
+        toString o ++ "@" ++ toString b ++ "=" ++ loadStr (loadBefore s.h o b)))
+    | _, _, _ => (s, "bad-op")
   | ["reach", b] =>
     match b.toNat? with
     | some b => (s, match reachListAt s.h b with | some l => listStr l | none => "err:Fuel")
